@@ -19,7 +19,7 @@ from .. import sched as S
 ID = "C15"
 ENGINE = "schedsim"
 LEVEL = "exploration"
-BUDGET = {"quick": 75, "thorough": 1200}
+BUDGET = {"quick": 60, "thorough": 1200}
 RUN_TIMEOUT = 150
 SELFTEST_PAIRS = {"quick": 10, "thorough": 30}
 PROBES = ["two_tasks_in_charmap_section", "exception_inside_section", "failing_input_in_history",
